@@ -23,7 +23,7 @@ use kvh::sys::*;
 use kvh::util::{coq_list, write_json, Args, CaseWriter, Rng};
 use krill::commons::storage::verif::{set_probe, Event, Probe};
 use krill::commons::storage::Ident;
-use krill::constants::{CASERVER_NS, CA_OBJECTS_NS, TASK_QUEUE_NS};
+use krill::constants::{CASERVER_NS, CA_OBJECTS_NS, PUBSERVER_CONTENT_NS, TASK_QUEUE_NS};
 use krill::server::ca::publishing::CaObjects;
 use serde_json::{json, Value};
 
@@ -306,6 +306,15 @@ fn run_op(sys: &Sys, op: &str, p: &Params) -> Result<(), String> {
         "update_repo" => update_repo_of(sys, "n"),
         "parent_remove" => e(sys.parent_remove(t, "a")),
         "child_remove" => e(sys.child_remove("a", t)),
+        // rejected by the aggregate (a prefix no CA of the hierarchy holds): stored with its error (store.rs:418-424)
+        "roa_reject" => e(sys.routes_update(t, &[REJECTED_ROA], &[])),
+        // the UpdateSnapshots task as the scheduler runs it (scheduler.rs:165, 524-600): a snapshot of every aggregate,
+        // then the snapshot update of the publication server's change-set store in a WalStore of its own
+        "update_snapshots" => match std::panic::catch_unwind(std::panic::AssertUnwindSafe(|| krill::server::scheduler::verif_process_task(&sys.slow, krill::server::mq::Task::UpdateSnapshots, sys.started))) {
+            Ok(Ok(_)) => Ok(()),
+            Ok(Err(err)) => Err(format!("fatal: {err}")),
+            Err(_) => Err("fatal: panic".into()),
+        },
         "task" => {
             // one scheduler step; a fatal error of the task or of finishing it ends the daemon (process::exit)
             match std::panic::catch_unwind(std::panic::AssertUnwindSafe(|| sys.run_one_task())) {
@@ -316,6 +325,11 @@ fn run_op(sys: &Sys, op: &str, p: &Params) -> Result<(), String> {
         other => panic!("unknown op {other}"),
     }
 }
+
+/// Outside the resources of every CA of the hierarchy (they hold 10.0.0.0/16 .. 10.7.0.0/16).
+const REJECTED_ROA: &str = "10.200.0.0/16 => 64999";
+/// The object the publisher px publishes in state `pxstaged` (acknowledged before the faulted operation).
+const PX_ACKED_OBJECT: &str = "obj3.txt";
 
 fn alt_roa(roa: &str) -> String {
     // same prefix, another origin
@@ -378,11 +392,26 @@ fn facts(sys: &Sys) -> Value {
     let notif_serial = std::fs::read(repo.join("rrdp/notification.xml")).ok()
         .and_then(|b| rpki::rrdp::NotificationFile::parse(b.as_slice()).ok()).map(|n| n.serial()).unwrap_or(0);
     let content_serial = sys.krill.repo_manager().repo_stats().ok().map(|s| serde_json::to_value(&s).unwrap()["serial"].as_u64().unwrap_or(0)).unwrap_or(0);
-    json!({"versions": versions, "objects": objs, "tasks": task_names(sys),
+    json!({"versions": versions, "objects": objs, "tasks": task_names(sys), "wal": wal_stored(sys),
            "has_current": repo.join("rsync/current").exists(), "has_old": repo.join("rsync/old").exists(),
            "tmp_dirs": std::fs::read_dir(repo.join("rsync")).map(|rd| rd.flatten().map(|e| e.file_name().to_string_lossy().to_string()).filter(|n| n.starts_with("tmp-")).collect::<Vec<_>>()).unwrap_or_default(),
            "rsync_files": count_files(&repo.join("rsync/current")),
            "notification_serial": notif_serial, "content_serial": content_serial})
+}
+
+/// The stored state of the publication server's change-set store (pubd_objects/0), read from the storage, not
+/// through the WalStore: revision of snapshot.json, revisions of the wal-N.json present, and the revision a fresh
+/// store loads from them (snapshot, then consecutive sets: wal.rs:320-328).
+fn wal_stored(sys: &Sys) -> Value {
+    let snap = kv_json(sys, PUBSERVER_CONTENT_NS, Some("0"), "snapshot.json").ok().flatten().and_then(|v| v["revision"].as_u64());
+    let store = sys.krill.storage().open(PUBSERVER_CONTENT_NS).unwrap();
+    let scope = Ident::boxed_from_string("0".to_string()).unwrap();
+    let mut sets: Vec<u64> = store.keys(Some(&scope), "wal-").unwrap_or_default().iter()
+        .filter_map(|k| k.as_str().strip_prefix("wal-").and_then(|s| s.strip_suffix(".json")).and_then(|s| s.parse().ok())).collect();
+    sets.sort();
+    let mut loaded = snap.unwrap_or(0);
+    while sets.contains(&loaded) { loaded += 1 }
+    json!({"snapshot": snap, "sets": sets, "loaded": loaded})
 }
 
 fn count_files(dir: &Path) -> usize {
@@ -794,11 +823,22 @@ fn recover_and_observe(sys: Sys, op: &str, p: &Params, restarted: bool, first_re
     tm("restart");
     let loads_final: Vec<String> = [loads_bad2, loads_bad3].concat();
     let live_all: Vec<String> = [live_bad, live_bad2].concat();
-    json!({"loads_bad": loads_bad, "loads_bad_final": loads_final, "live_bad": live_all, "restart_bad": restart_bad, "at_cut": at_cut,
+    let result = |restart_bad: &Vec<String>, stage: &str| json!({"stage": stage, "loads_bad": loads_bad, "loads_bad_final": loads_final, "live_bad": live_all, "restart_bad": restart_bad, "at_cut": at_cut,
            "obs_pump": {"cmp": comparable(&obs_pump), "signed_bad": obs_pump["signed_bad"], "files_bad": obs_pump["files_bad"], "orphan_roas": obs_pump["orphan_roas"]},
            "obs_prompt": comparable(&obs_prompt),
            "first_result": first_result.as_ref().map(res_json), "resubmit": res_json(&resubmit), "settle_errs": settle_errs,
-           "pumped": [pumped1, pumped2, pumped3], "obs": obs})
+           "pumped": [pumped1, pumped2, pumped3], "obs": obs});
+    // The restarted daemon keeps working: two more commands on every CA that acknowledged one before the restart.
+    // (A command key that exists already ends the process - store.rs:401-415 -, so what was found so far is written first.)
+    std::fs::write("result.json", serde_json::to_string(&result(&restart_bad, "post-restart")).unwrap()).unwrap();
+    for ca in &acked {
+        for tag in ["post1", "post2"] {
+            if let Some(roa) = comment_roa(ca, p) { if let Err(e) = comment_command(&sys, ca, &roa, tag) { restart_bad.push(format!("restarted-daemon-refuses-command: {ca} {tag}: {}", e.chars().take(160).collect::<String>())); } }
+        }
+    }
+    for w in check_loads(&sys) { restart_bad.push(format!("after the commands of the restarted daemon: {w}")); }
+    tm("post-restart");
+    result(&restart_bad, "done")
 }
 
 fn pump_guarded(sys: &Sys, max: usize, wait_ms: u64) -> Value {
@@ -913,17 +953,31 @@ fn run_case(exe: &Path, seed: u64, out: &Path, state: &str, op: &str, mode: &str
         res = read_json(&d.join("result.json"));
         if n.is_none() { res["mutations"] = first["mutations"].clone(); res["first_result"] = first["first_result"].clone(); res["new_commands"] = first["new_commands"].clone(); }
         exit = format!("{rc:?}/{rc2:?}");
-        if rc2 != Some(0) { res = json!({"fatal": format!("recover worker ended with {rc2:?}: {err2}")}); }
+        if rc2 != Some(0) { res = died_or_fatal(res, format!("recover worker ended with {rc2:?}: {err2}")); }
     } else if rc != Some(0) {
-        res = json!({"fatal": format!("worker ended with {rc:?}: {err}")});
+        res = died_or_fatal(res, format!("worker ended with {rc:?}: {err}"));
     }
     let keep = std::env::var("KV_KEEP").is_ok();
     if !keep { let _ = std::fs::remove_dir_all(&d); }
     CaseOut { state: state.into(), op: op.into(), mode: mode.into(), n: n.unwrap_or(usize::MAX), prefix: trace.clone(), trace, res, exit, target: String::new(), pre }
 }
 
+/// A worker that ended abnormally: if it got as far as the commands of the restarted daemon, everything observed
+/// up to there stands and the death is recorded with it; otherwise nothing is known but the death.
+fn died_or_fatal(partial: Value, what: String) -> Value {
+    if partial["stage"] == "post-restart" {
+        let mut res = partial;
+        res["died_post_restart"] = json!(what.clone());
+        if let Some(a) = res["restart_bad"].as_array_mut() { a.push(json!(format!("restarted-daemon-died: {what}"))); }
+        res
+    } else { json!({"fatal": what}) }
+}
+
+/// Operations whose aggregate snapshots are written in directory order: the entity of a shape is not compared.
+fn wildcard_op(op: &str) -> bool { op == "republish" || op == "update_snapshots" }
+
 fn shapes(tr: &[Value], op: &str) -> Vec<(String, String)> {
-    tr.iter().map(|t| { let mut c = t["class"].as_str().unwrap_or("").to_string(); if op == "republish" { c = c.rsplitn(2, ':').last().unwrap_or("").to_string() + ":*"; } (t["store"].as_str().unwrap_or("").to_string(), c) }).collect()
+    tr.iter().map(|t| { let mut c = t["class"].as_str().unwrap_or("").to_string(); if wildcard_op(op) { c = c.rsplitn(2, ':').last().unwrap_or("").to_string() + ":*"; } (t["store"].as_str().unwrap_or("").to_string(), c) }).collect()
 }
 
 /// Where a cut falls, from the twin's trace: index n = the first n mutations were done.
@@ -946,6 +1000,7 @@ fn cut_class(tr: &[(String, String)], n: usize) -> String {
         if tr[n].1.contains("rsync") { return "rsync-write".into() }
         return "rrdp-write".into();
     }
+    if tr[n].0 == "pubd_objects" && (tr[n].1.starts_with("store:snapshot") || tr[n].1.starts_with("delete:wal")) { return "wal-snapshot-update".into() }
     if n > 0 && tr[n - 1].0 == "pubd_objects" { return "after-wal-store".into() }
     if n == 0 { return "before-first-mutation".into() }
     "between-steps".into()
@@ -1058,7 +1113,11 @@ fn steps_terms(trace: &[Value], new_commands: &Value, wildcard_entity: bool, n_p
     steps
 }
 
-fn kind_term(state: &str, op: &str, twin: &CaseOut, pre: &Value) -> String {
+fn wal_term(w: &Value) -> String {
+    format!("(mkWal {} {})", w["snapshot"].as_u64().unwrap_or(0), coq_list(&w["sets"].as_array().map(|a| a.iter().map(|x| x.as_u64().unwrap_or(0).to_string()).collect::<Vec<_>>()).unwrap_or_default()))
+}
+
+fn kind_term(state: &str, op: &str, twin: &CaseOut, pre: &Value, c: &CaseOut) -> String {
     // the files of the tree right after the operation, counted in the directory (not in the trace)
     let n_files = twin.res["at_cut"]["rsync_files"].as_u64().unwrap_or(0);
     let hc = pre["has_current"].as_bool().unwrap_or(false);
@@ -1071,6 +1130,7 @@ fn kind_term(state: &str, op: &str, twin: &CaseOut, pre: &Value) -> String {
     let rrdp = format!("(KRrdpUpdate {nd}%nat {} {n_files}%nat {hc} {ho} {ht})", coq_list(&cleanup));
     match (state, op) {
         (_, "keyroll_init") => "KKeyrollInit".into(),
+        (_, "update_snapshots") => format!("(KUpdateSnapshots {} {})", wal_term(&pre["wal"]), wal_term(&c.res["at_cut"]["wal"])),
         (_, "remove_publisher") => "KRemovePublisher".into(),
         (_, "create_publisher") => "KCreatePublisher".into(),
         (_, "delete_ca") | (_, "delete_ca_parent") | (_, "init_ca") | (_, "update_repo") | (_, "parent_remove") | (_, "child_remove") => "KGeneric".into(),
@@ -1141,12 +1201,14 @@ fn main() {
     assert!(rc == Some(0), "setup failed: {err}");
     eprintln!("setup {:?}", t0.elapsed());
     let quick: Vec<(&str, &str)> = vec![("base", "roa_add"), ("base", "entitlement"), ("rollpending", "sync_parent"), ("rollnew", "keyroll_activate"), ("dirty", "task"), ("ahead", "task"), ("staged", "rrdp_update"), ("oldleft", "rsync_write"),
-        ("base", "remove_publisher"), ("pxstaged", "remove_publisher"), ("base", "create_publisher"), ("base", "delete_ca")];
+        ("base", "remove_publisher"), ("pxstaged", "remove_publisher"), ("base", "create_publisher"), ("base", "delete_ca"),
+        ("pxstaged", "update_snapshots"), ("base", "roa_reject")];
     let all: Vec<(&str, &str)> = vec![("base", "roa_add"), ("base", "aspa_add"), ("base", "entitlement"), ("ent", "sync_parent"), ("base", "keyroll_init"), ("rollpending", "sync_parent"),
         ("rollnew", "keyroll_activate"), ("rollold", "sync_parent"), ("dirty", "task"), ("dirty", "sync_repo"), ("dirty", "roa_add2"), ("staged", "rrdp_update"), ("staged", "rsync_write"), ("base", "republish"), ("staged", "task"),
         ("rollnew", "roa_add"), ("rollold", "roa_add"), ("rollpending", "roa_add"), ("rollnew", "entitlement"), ("ent", "roa_add"), ("ahead", "task"), ("oldleft", "rsync_write"), ("tmpleft", "rsync_write"),
         ("base", "remove_publisher"), ("pxstaged", "remove_publisher"), ("base", "create_publisher"), ("base", "delete_ca"), ("base", "delete_ca_parent"),
-        ("base", "init_ca"), ("newca", "update_repo"), ("base", "parent_remove"), ("base", "child_remove")];
+        ("base", "init_ca"), ("newca", "update_repo"), ("base", "parent_remove"), ("base", "child_remove"),
+        ("pxstaged", "update_snapshots"), ("staged", "update_snapshots"), ("base", "roa_reject"), ("rollnew", "roa_reject")];
     let plan: Vec<(&str, &str)> = match args.extra.get("plan").map(|s| s.as_str()) {
         Some("all") => all.clone(),
         Some(p) if p.contains('/') => p.split(',').map(|x| { let (a, b) = x.split_once('/').unwrap(); *all.iter().find(|(s, o)| *s == a && *o == b).expect("unknown state/op") }).collect(),
@@ -1204,7 +1266,7 @@ fn main() {
     for c in &cases {
         let twin = twins.iter().find(|t| t.state == c.state && t.op == c.op && t.mode == c.mode).unwrap();
         let pre = c.pre.clone();
-        let wild = c.op == "republish";
+        let wild = wildcard_op(&c.op);
         let tsh = shapes(&twin.trace, &c.op);
         let cls = cut_class(&tsh, c.n);
         let fatal = !c.res["fatal"].is_null();
@@ -1252,7 +1314,7 @@ fn main() {
         let steps = steps_terms(&twin.trace, &twin.res["new_commands"], wild, &n_parents);
         let trace_t: Vec<String> = twin.trace.iter().map(|t| shape_term(t, wild)).collect();
         let prefix_t: Vec<String> = c.prefix.iter().take(c.n).map(|t| shape_term(t, wild)).collect();
-        let kind = kind_term(&c.state, &c.op, twin, &pre);
+        let kind = kind_term(&c.state, &c.op, twin, &pre, c);
         let term = format!("mkCase {kind} {} {}%nat {} {} {} {} {} {} {} {acked} {loads} {rp_ok} {converged} {tasks_kept} {cand} {strict} {strict_atomic}",
             if c.mode == "crash" { "Crash" } else { "Fail" }, c.n, coq_list(&pend0), coq_list(&run0),
             coq_list(&steps.iter().map(|s| format!("({s})")).collect::<Vec<_>>()),
@@ -1265,7 +1327,13 @@ fn main() {
         let ack_lost = acked && single_command && ["a", "b", "c"].iter().any(|h| {
             let want = twin.trace.iter().filter(|t| t["store"] == "cas" && t["scope"].as_str() == Some(*h) && t["key"].as_str().unwrap_or("").starts_with("command-")).count() as u64;
             c.res["at_cut"]["versions"][*h].as_u64().unwrap_or(0) < pre["versions"][*h].as_u64().unwrap_or(0) + want });
-        let sym_name = if !live_ok { "live-state-ahead-of-log" } else if gap { "version-gap" } else if ack_lost || lost_by_restart { "acknowledged-command-lost" }
+        // the change-set store right after the cut loads less than what was acknowledged before the operation, or the
+        // object the publisher px had published (acknowledged) is not in the repository content at the end
+        let wal_lost = c.op == "update_snapshots" && !fatal && c.res["at_cut"]["wal"]["loaded"].as_u64().unwrap_or(0) < pre["wal"]["loaded"].as_u64().unwrap_or(0);
+        let px_lost = c.state == "pxstaged" && c.op == "update_snapshots" && !fatal
+            && !c.res["obs"]["repo"]["px"].as_array().map(|a| a.iter().any(|u| u.as_str().unwrap_or("").ends_with(PX_ACKED_OBJECT))).unwrap_or(false);
+        let died = fatal || !c.res["died_post_restart"].is_null();
+        let sym_name = if died { "daemon-died" } else if wal_lost || px_lost { "acknowledged-publication-lost" } else if !live_ok { "live-state-ahead-of-log" } else if gap { "version-gap" } else if ack_lost || lost_by_restart { "acknowledged-command-lost" }
             else if !restart_ok { "restart-changes-state" } else if !loads { "does-not-load" } else if !rp_ok { "published-set-invalid" }
             else if sym != "none" { sym } else if only_atomic { "objects-ahead-of-log" } else { "none" };
         // with strict = 0 a candidate divergence is excused, so the only clause such a record can fail is atomicity
@@ -1276,6 +1344,7 @@ fn main() {
             "trace": twin.trace.iter().map(|t| format!("{} {}", t["store"].as_str().unwrap_or(""), t["class"].as_str().unwrap_or(""))).collect::<Vec<_>>(),
             "interrupted_mutation": twin.trace.get(c.n).map(|t| format!("{} {}", t["store"].as_str().unwrap_or(""), t["class"].as_str().unwrap_or(""))),
             "first_result": c.res["first_result"], "resubmit": c.res["resubmit"], "settle_errs": c.res["settle_errs"], "loads_bad": all_load_msgs, "live_vs_log": c.res["live_bad"], "restart": c.res["restart_bad"], "fatal": c.res["fatal"],
+            "content_store_before": pre["wal"], "content_store_at_cut": c.res["at_cut"]["wal"], "content_of_px_at_the_end": c.res["obs"]["repo"]["px"],
             "new_commands_at_cut": new_cmds, "objects_changed_at_cut": objs_changed, "atomic_alike_broken": atomic_broken,
             "roas_published_without_logged_command_after_restart_and_tasks": c.res["obs_pump"]["orphan_roas"], "orphan_roas_at_the_end": c.res["obs"]["orphan_roas"],
             "converged": converged, "converged_promptly": d_prompt.is_empty(), "lost_tasks": lost, "diff_vs_twin": diffs.iter().take(6).collect::<Vec<_>>(), "exit": c.exit});
@@ -1284,13 +1353,13 @@ fn main() {
         *sym_hist.entry(sym_name.to_string()).or_default() += 1;
         *op_hist.entry(format!("{}/{}", c.state, c.op)).or_default() += 1;
         if converged && !d_prompt.is_empty() { *delayed_hist.entry(format!("{}/{} {}", c.state, c.op, cls)).or_default() += 1; }
-        if cand != 0 || sym == "diverged" || sym == "rsync-old-dir-blocks-writes" || !loads || ack_lost || !rp_ok { if candidates.len() < 60 { candidates.push(rec.clone()); } }
+        if cand != 0 || sym == "diverged" || sym == "rsync-old-dir-blocks-writes" || !loads || ack_lost || !rp_ok || wal_lost || px_lost || died { if candidates.len() < 60 { candidates.push(rec.clone()); } }
         if atomic_broken && atomic_cases.len() < 12 { atomic_cases.push(json!({"index": w.total, "op": c.op, "state": c.state, "mode": c.mode, "cut": c.n, "objects_changed": objs_changed, "new_commands": new_cmds,
             "roas_published_without_logged_command_after_restart_and_tasks": c.res["obs_pump"]["orphan_roas"], "orphan_roas_at_the_end": c.res["obs"]["orphan_roas"]})); }
         traces.entry(format!("{}/{}", c.state, c.op)).or_insert_with(|| json!(twin.trace.iter().map(|t| format!("{} {}", t["store"].as_str().unwrap_or(""), t["class"].as_str().unwrap_or(""))).collect::<Vec<_>>()));
         distinct.insert(format!("{}|{}|{}|{}", c.state, c.op, c.mode, c.n));
         if samples.len() < 4 && (w.total % 29 == 5) { samples.push(rec.clone()); }
-        if verbose || sym == "diverged" || sym == "rsync-old-dir-blocks-writes" || !loads || ack_lost || !rp_ok {
+        if verbose || sym == "diverged" || sym == "rsync-old-dir-blocks-writes" || !loads || ack_lost || !rp_ok || wal_lost || px_lost || died {
             println!("{}/{} {} n={} [{}] {} loads {} rp {} converged {} prompt {} lost {:?} resubmit {}", c.state, c.op, c.mode, c.n, cls, sym_name, loads, rp_ok, converged, d_prompt.is_empty(), lost, c.res["resubmit"].to_string().chars().take(100).collect::<String>());
             for d in diffs.iter().take(5) { println!("      diff {d}"); }
             if fatal { println!("      fatal {}", c.res["fatal"]); }
